@@ -51,7 +51,10 @@ def main():
     if prop not in plan.PLAN:
         log(f"UNDECIDED property={prop} reason=not claimed (see MANIFEST.not_applicable)")
         return 2
-    seed = int(os.environ.get("VERIF_SEED", "0") or 0)
+    try:
+        seed = int(os.environ.get("VERIF_SEED", "0") or 0)
+    except ValueError:
+        seed = 0
     t0 = time.time()
     os.makedirs(os.path.join(VERIF, "work"), exist_ok=True)
     workdir = tempfile.mkdtemp(prefix=f"{prop}-", dir=os.path.join(VERIF, "work"))
@@ -228,4 +231,13 @@ def write_evidence(prop, tier, seed, stages, failures, undecided, wall, P, witne
 
 
 if __name__ == "__main__":
-    sys.exit(main())
+    try:
+        rc = main()
+    except SystemExit:
+        raise
+    except BaseException as e:  # an internal error of the machinery is never a verdict about the code
+        import traceback
+        traceback.print_exc()
+        print(f"UNDECIDED property={sys.argv[1] if len(sys.argv) > 1 else '?'} reason=internal error of the check: {type(e).__name__}: {e}", flush=True)
+        rc = 2
+    sys.exit(rc)
